@@ -17,7 +17,7 @@ func c03Exec(depth int, adversarial bool, junk bool, allCuts bool, postAll bool)
 }
 
 // c03ExecPre: pre runs a fixed prefix (using flush for Flush) before the free letters.
-func c03ExecPre(depth int, adversarial bool, junk bool, allCuts bool, postAll bool, pre func(w *harness.World, flush func(w *harness.World))) explore.Exec {
+func c03ExecPre(depth int, adversarial bool, junk bool, allCuts bool, postAll bool, pre func(w *harness.World, flush func(w *harness.World)), cbMask ...int) explore.Exec {
 	var marks []harness.FlushMark
 	flush := func(w *harness.World) {
 		n := len(w.M.Flushed)
@@ -27,7 +27,11 @@ func c03ExecPre(depth int, adversarial bool, junk bool, allCuts bool, postAll bo
 		}
 	}
 	images := 0
-	sp := &SeqProfile{Name: "crash", Keys: [][]byte{kA, kB}, Depth: depth,
+	mask := 0
+	if len(cbMask) > 0 {
+		mask = cbMask[0]
+	}
+	sp := &SeqProfile{Name: "crash", Keys: [][]byte{kA, kB}, Depth: depth, CBMask: mask,
 		Init: func(w *harness.World) {
 			marks = nil
 			images = 0
@@ -122,6 +126,8 @@ func c03Profiles(tier string) []Profile {
 			}
 			w.SetItem("x", kB, 2, big)
 		}), Rule: "one history [Set(a) Flush Set(b, 9000-byte value) Flush] x every one of the ~9200 byte-granular crash points: every length 0..9100 of uncommitted bytes after the last complete root record (a backward scan that proceeds in chunks of any size up to 8 KiB meets every alignment of the end marker)"},
+		{Name: "crash-framed", Exec: c03ExecPre(d-1, false, false, true, false, nil, harness.CBFramed),
+			Rule: fmt.Sprintf("the crash profile (histories of length <= %d, every byte-granular crash point) with a BeforeItemWrite / AfterItemRead pair installed that stores every value with a two-byte trailer (length, checksum) and verifies and strips it on read - the documented use of the pair (checksums, compression): what is stored differs in length from what is in memory, and recovery must still give the last completed Flush", d-1)},
 		{Name: "junk", Exec: c03Exec(dj, false, true, false, false),
 			Rule: fmt.Sprintf("every history of length <= %d x crash images at write boundaries and cuts {1, n/2, n-1} x every adversarial junk tail and every proper prefix of it appended after the image", dj)},
 	}...)
